@@ -245,14 +245,46 @@ func runRL(x *X) {
 		const tick = 10 * time.Minute
 		target := (x.Now() + idle + tick) / tick * tick
 		tasks := 1 + c.Intn(2, "returning-tasks")
+		// either more requests than the allowance (none too many may pass) or exactly the allowance
+		// (none may be turned away)
+		exact := c.Intn(2, "returning-asks-exactly-the-allowance") == 1
 		for j := 0; j < tasks; j++ {
+			n := max + 1
+			if exact {
+				n = max / tasks
+				if j == 0 {
+					n += max % tasks
+				}
+			}
+			if n == 0 {
+				continue
+			}
 			s.Spawn("returning-"+client, func() {
 				TaskSleep(target - x.Now())
-				runScript(client, []rlOp{{kind: "allow", n: max + 1}}, false)
+				runScript(client, []rlOp{{kind: "allow", n: n}}, false)
 			})
 		}
 		x.RunTasks(onErr)
 		x.Probe("return-at-cleanup-tick")
+		// whatever the sweep decides about the bucket at that instant, the client has been away long
+		// enough for a full allowance: of its requests at the tick exactly max_tokens are admitted
+		// (not more: the all-pairs bound below; not fewer: here)
+		if !x.dead {
+			x.mu.Lock()
+			adm, asked := 0, 0
+			for _, e := range evs {
+				if e.client == client && e.at == target {
+					asked++
+					if e.allowed {
+						adm++
+					}
+				}
+			}
+			x.mu.Unlock()
+			if asked >= max && adm < max {
+				x.Violate("C09", "C09/refill-missing{return-at-cleanup-tick}", "client %s had been idle for %v (max_tokens %d, refill %v) and came back at the instant of a cleanup tick (t=%v) with %d requests from %d task(s): only %d were admitted", client, idle, max, refill, target, asked, tasks, adm)
+			}
+		}
 	}
 
 	// Biased closing pattern (rare: it is expensive): a flood of one-off clients -- an address scan,
